@@ -689,7 +689,7 @@ func (x *c7Exec) step(op drv.Op) (*drv.Violation, error) {
 			fmt.Sprintf("request: %s -> %d %s\n%s\ngraph:\n%s", desc, st, trunc(rb), det, na)), nil
 	}
 	if !ok && na != x.normB {
-		return c7v("error-leaves-unchanged", "rejected "+op.Op+argKinds(op)+faultTag+" changed the graph",
+		return c7v("error-leaves-unchanged", "rejected "+op.Op+faultTag+argKinds(op)+" changed the graph",
 			fmt.Sprintf("request: %s -> %d %s\nbefore:\n%s\nafter:\n%s", desc, st, trunc(rb), x.normB, na)), nil
 	}
 	existedBefore := false
